@@ -50,12 +50,21 @@ def acceptable_outcomes(trace, interests, packets, legacy=False, deadline_valida
     cands = {i: [] for i in interests}
     soft = {i: [] for i in interests}   # outcomes tolerated (statement silent) but that do not close the Interest
     down = False
+    down_soon = False
     for idx, e in enumerate(trace):
         k = e[0]
+        if k == 'quiescent' and down_soon:
+            down, down_soon = True, False
         if k == 'expressed':
             i = e[1]
             if down:
                 cands[i].append((idx, 'neterr'))
+                st[i] = 'closedish'
+            elif down_soon:
+                # the main-loop task has been cancelled but has not run yet: the face may still take the Interest, which is then
+                # cancelled with everything else, or it may already refuse it
+                cands[i].append((idx, 'neterr'))
+                cands[i].append((idx, 'canceled'))
                 st[i] = 'closedish'
             else:
                 st[i] = 'pending'
@@ -96,8 +105,11 @@ def acceptable_outcomes(trace, interests, packets, legacy=False, deadline_valida
                 i = int(ev[1:])
                 if i in interests:
                     cands[i].append((idx, 'canceled'))
-            elif ev == 's':
-                down = True
+            elif ev in ('s', 'm'):
+                if ev == 's':
+                    down = True
+                else:
+                    down_soon = True
                 for i, s in st.items():
                     if s == 'pending':
                         cands[i].append((idx, 'canceled'))
